@@ -326,3 +326,20 @@ Definition tables_wfb : bool :=
   forallb (fun e => forallb (fun c => wf_ownb (c_own c)) (classes_of (fst e))) entrypoints.
 
 Definition ep_names : list pystr := map fst entrypoints.
+
+(* ---------- comparison helpers for the generated correspondence cases (harness/props/c19.py) ---------- *)
+Definition res_eqb (a b : res json) : bool :=
+  match a, b with
+  | Ok x, Ok y => json_eqb x y
+  | Err _, Err _ => true
+  | _, _ => false
+  end.
+
+Definition check_cfg (ep : pystr) (files : list json) (exp exp_none : res json) : bool :=
+  res_eqb (canon_res (build_config ep false files)) exp && res_eqb (canon_res (build_config ep true files)) exp_none.
+
+Definition check_ns (ep : pystr) (files : list json) (flags : dict) (exp : dict) (exp_ign : json) : bool :=
+  forallb (fun p => res_eqb (canon_res (effective ep files flags (fst p))) (Ok (snd p))) exp &&
+  res_eqb (canon_res (installed_ignore ep files)) (Ok exp_ign).
+
+Definition failing (l : list (N * bool)) : list N := map fst (filter (fun p => negb (snd p)) l).
